@@ -151,12 +151,34 @@ def e2e_case(c):
     mol = Molecules(p[None] * scale, A)
     msh = c["max_shift_px"]
     kw = dict(max_shifts=(tuple(float(x) * scale for x in msh) if isinstance(msh, (list, tuple)) else msh * scale), alignment_model=M, rotations=rots)
-    if c.get("mask"):
+    if c.get("mask") is True:
         # a soft mask wrapped around the (asymmetric) template density: every searched rotation has its own rotated mask
         from scipy import ndimage as ndi
         body = ndi.binary_dilation(tmpl > 0.25 * tmpl.max(), iterations=2)
         kw["mask"] = np.clip(ndi.gaussian_filter(body.astype(np.float32), 1.0), 0.0, 1.0).astype(np.float32)
-    if c["loader"] == "single":
+    if c.get("tkind"):
+        # the other accepted ways of handing over the template and the mask: image providers / converters (resolved at the loader's scale),
+        # a 4-D stack or a list for several templates; the loader has no box of its own (it comes from the template)
+        from acryo import pipe
+        from scipy import ndimage as ndi
+        ld_ = SubtomogramLoader(tomo, mol, order=3, scale=scale)
+        tprov = pipe.from_array(tmpl, original_scale=scale)
+        decoy = np.ascontiguousarray(tmpl[::-1, ::-1, :])
+        if c["tkind"] == "provider":
+            out = ld_.align(tprov, **kw)
+        elif c["tkind"] == "provider+converter-mask":
+            out = ld_.align(tprov, mask=pipe.soft_otsu(sigma=1.0 * scale, radius=2.0 * scale), **kw)
+        elif c["tkind"] == "provider+provider-mask":
+            body = ndi.binary_dilation(tmpl > 0.2 * tmpl.max(), iterations=3).astype(np.float32)
+            out = ld_.align(tprov, mask=pipe.from_array(ndi.gaussian_filter(body, 1.0), original_scale=scale), **kw)
+        elif c["tkind"] == "stack4d":
+            out = ld_.align(np.stack([decoy, tmpl]), **kw)
+        else:
+            out = ld_.align((decoy, tprov), **kw)
+        mo = out.molecules
+        if c["tkind"] in ("stack4d", "tuple") and int(mo.features["labels"][0]) != 1:
+            return False, f"multi-template label {int(mo.features['labels'][0])} != 1"
+    elif c["loader"] == "single":
         out = SubtomogramLoader(tomo, mol, order=3, scale=scale, output_shape=tmpl.shape).align(tmpl, **kw)
         mo = out.molecules
     elif c["loader"] == "batch":
@@ -205,6 +227,17 @@ E2E_DIRECTED = [
          shift_px=[1.0, 1.0, -3.0], max_shift_px=[1.0, 1.0, 3.0]),
     dict(model="fsc", loader="group", scale=2.0, rv_true=[0.2, 0.0, 0.0], p_true=[22.0, 22.0, 23.0], rotations=[[0, 0], [0, 0], [0, 0]], k=0,
          shift_px=[-1.0, 2.0, 1.0], max_shift_px=[1.0, 3.0, 1.0]),
+    # template / mask given as providers, converters, a 4-D stack or a tuple
+    dict(model="zncc", loader="single", scale=0.5, rv_true=[0.2, 0.1, 0.0], p_true=[22.0, 22.0, 22.5], rotations=[[0, 0], [0, 0], [0, 0]], k=0,
+         shift_px=[1.0, -1.0, 0.5], max_shift_px=2.0, tkind="provider"),
+    dict(model="zncc", loader="single", scale=2.0, rv_true=[0.0, 0.3, 0.1], p_true=[22.5, 22.0, 22.0], rotations=[[0, 0], [0, 0], [0, 0]], k=0,
+         shift_px=[-1.0, 0.5, 1.0], max_shift_px=2.0, tkind="provider+converter-mask", mask="converter"),
+    dict(model="ncc", loader="single", scale=1.6, rv_true=[0.1, 0.0, -0.2], p_true=[22.0, 22.5, 22.0], rotations=[[0, 0], [0, 0], [0, 0]], k=0,
+         shift_px=[0.5, 1.0, -1.0], max_shift_px=2.0, tkind="provider+provider-mask", mask="provider"),
+    dict(model="pcc", loader="single", scale=0.5, rv_true=[0.0, 0.0, 0.3], p_true=[22.0, 22.0, 22.0], rotations=[[0, 0], [0, 0], [0, 0]], k=0,
+         shift_px=[1.0, 1.0, -0.5], max_shift_px=2.0, tkind="stack4d"),
+    dict(model="zncc", loader="single", scale=2.0, rv_true=[-0.2, 0.1, 0.0], p_true=[22.0, 22.0, 22.0], rotations=[[0, 0], [0, 0], [0, 0]], k=0,
+         shift_px=[-0.5, -1.0, 1.0], max_shift_px=2.0, tkind="tuple"),
     # rotation search together with a shape-following soft mask; the true rotation is not the first searched candidate
     dict(model="zncc", loader="single", scale=1.0, rv_true=[0.1, 0.2, -0.1], p_true=[22.0, 22.5, 22.0], rotations=[[0, 0], [0, 0], [90, 90]], k=2,
          shift_px=[1.0, -1.0, 0.5], max_shift_px=2.0, mask=True),
